@@ -60,7 +60,7 @@ class Interp:
         self.reqs.append(r)
         return r
 
-    def map(self, L, conc, stars=0, group=None, bad=-1, fname="fn", badkind=0, iterfail=-1):
+    def map(self, L, conc, stars=0, group=None, bad=-1, fname="fn", badkind=0, iterfail=-1, empty=-1):
         """map/starmap/doublestarmap over a counting generator of L elements; element `bad` (if any) makes the call raise:
         badkind 0 = func rejects that element's (well-formed) arguments; badkind 1 = the element cannot even be unpacked
         (a non-iterable for starmap, a non-mapping for doublestarmap)."""
@@ -74,6 +74,9 @@ class Interp:
                 items.append((("el", j), j))
             else:
                 items.append({"x": ("el", j), "y": j})
+        for j in range(L):
+            if j == empty and stars >= 1:
+                items[j] = () if stars == 1 else {}      # an element with nothing to unpack: func() is the call
         r["items"] = items
         fn = self.w.worker(r["idx"], fname)
         if bad >= 0 and badkind == 1 and stars >= 1:
